@@ -17,6 +17,8 @@ A flipped sign in any of these makes the truth a repeller or moves the equilibri
 Added after the seeding rounds (DESIGN.md 6.6-6.8):
  AQUA  equilibrium at dt = 0 (both conventions), SHORT-ARC (interval: delta quaternions have non-negative scalar part), GAIN-INPUT (adaptive gain receives the raw sample);
  FEEDBACK.guard / FEEDBACK.step  the gradient step is decided by interpretation with opaque norms and is guarded by norm(f) != 0.
+Added after seeding rounds 5 and 6 and refactoring round 4 (DESIGN.md 6.10-6.12):
+ AM-TILT  roll and pitch of am_estimation satisfy the defining identities of the tilt angles, both arms.
 """
 import ast
 LINT_EXTRA_FILES = ("ahrs/common/orientation.py", "ahrs/utils/core.py")      # acc2q / am2q / ecompass helpers the filters start from; the shared input validators
